@@ -29,6 +29,7 @@ func NewClientConn(ctx context.Context, n uint8, sendFunc sendBytesFunc,
 	}
 
 	conn := newGoBackNConn(ctx, cfg, "client")
+	conn.isClient = true
 
 	if err := conn.clientHandshake(); err != nil {
 		if err := conn.Close(); err != nil {
